@@ -87,7 +87,8 @@ def floors(tier):
                         "vertex_on_cell_border": 200, "vertex_on_cell_corner": 200, "vertex_on_outer_border": 200,
                         "query_on_cell_border": 200, "query_on_cell_corner": 200, "query_on_outer_border": 200,
                         "query_on_upper_outer_border": 100, "nonsquare_neighbourhood_demanded": 100,
-                        "segment_query_along_gridline": 30, "zero_length_leg": 30},
+                        "segment_query_along_gridline": 30, "zero_length_leg": 30,
+                        "leg_on_outer_border": 50, "leg_on_upper_outer_border": 25},
             "distinct_nontrivial": 1000 if q else 10000}
 
 
@@ -239,8 +240,41 @@ def _point_candidates(rng, P, tracks, n):
     return out
 
 
+def _border_tracks(rng):
+    """Features whose only legs near the top/right side lie *on* that side of the bounding box (margin 0: on the
+    outer border of the extent), for an extent whose size is not a tidy multiple of the cell size."""
+    res = rng.choice(RES_SQUARE + RES_NONSQUARE + [None])
+    for _ in range(400):
+        ox, oy = rng.choice([0, 0, rng.uniform(-5, 5)]), rng.choice([0, 0, rng.uniform(-5, 5)])
+        big = max(res) if res else 1
+        if rng.random() < 0.5:
+            W, H = rng.randint(int(4 * big), int(4 * big) + 20) / 2, rng.randint(int(4 * big), int(4 * big) + 20) / 2
+        else:
+            W, H = rng.uniform(2 * big, 2 * big + 10), rng.uniform(2 * big, 2 * big + 10)
+        low = [[ox, oy]]
+        for _k in range(rng.randint(1, 3)):
+            low.append([ox + rng.uniform(0, 0.6) * W, oy + rng.uniform(0, 0.6) * H])
+        xa, xb = sorted([rng.uniform(0.1, 1) * W, rng.uniform(0.1, 1) * W])
+        ya, yb = sorted([rng.uniform(0.1, 1) * H, rng.uniform(0.1, 1) * H])
+        top = [[ox + xa, oy + H], [ox + xb, oy + H]]
+        right = [[ox + W, oy + ya], [ox + W, oy + yb]]
+        if rng.random() < 0.3:
+            top.append([ox + W, oy + H])
+        tracks = [low, top, right]
+        rng.shuffle(tracks)
+        P = _predict(tracks, res, 0)
+        if P is None:
+            continue
+        if (P["x1"] - P["x0"]) / P["dX"] > P["cs"] or (P["y1"] - P["y0"]) / P["dY"] > P["ls"] or rng.random() < 0.02:
+            return tracks, res
+    return tracks, res
+
+
 def _gen_rand_case(rng, force=None):
     force = force or {}
+    if force.get("border"):
+        tracks, res = _border_tracks(rng)
+        force = {"res": res, "margin": 0, "tracks": tracks, "profile": "border"}
     kind = force.get("kind") or rng.choice(["tc", "net"])
     profile = force.get("profile") or rng.choice(PROFILES)
     margin = force["margin"] if "margin" in force else rng.choice(MARGINS)
@@ -260,14 +294,37 @@ def _gen_rand_case(rng, force=None):
         ntr = rng.randint(1, 5) if res is not None else rng.randint(1, 3)
         tracks = [_walk(rng, "lattice" if profile == "lattice" else "random", W, H, rng.randint(2, 6))
                   for _ in range(ntr)]
-        if rng.random() < 0.015:
-            # degenerate extent on purpose (out of domain, counted)
-            for t in tracks:
-                for p in t:
-                    p[0] = tracks[0][0][0]
+        if "tracks" in force:
+            tracks = force["tracks"]
+            P = _predict(tracks, res, margin)
+            break
+        if _attempt == 0 and rng.random() < 0.02:
+            # out of domain on purpose (counted, never judged): zero width, or cells larger than the extent
+            if rng.random() < 0.5 or res is None:
+                for t in tracks:
+                    for p in t:
+                        p[0] = tracks[0][0][0]
+            else:
+                tracks = [[[p[0] / (4 * W) * res[0], p[1]] for p in t] for t in tracks]
+            if _predict(tracks, res, margin) is None:
+                return {"kind": kind, "profile": profile, "tracks": tracks, "res": res, "margin": margin,
+                        "queries": []}
         P = _predict(tracks, res, margin)
         if P is None:
-            return {"kind": kind, "profile": profile, "tracks": tracks, "res": res, "margin": margin, "queries": []}
+            continue
+        if rng.random() < 0.25:
+            # lay one leg on the outer border of the bounding box (with margin 0: of the extent)
+            t = rng.choice(tracks)
+            k = rng.randrange(len(t) - 1)
+            side = rng.randrange(4)
+            for p in (t[k], t[k + 1]):
+                if side < 2:
+                    p[0] = [P["bx0"], P["bx1"]][side]
+                else:
+                    p[1] = [P["by0"], P["by1"]][side - 2]
+            P = _predict(tracks, res, margin)
+            if P is None:
+                continue
         if profile == "gridsnap":
             for t in tracks:
                 for p in t:
@@ -320,6 +377,16 @@ def _gen_rand_case(rng, force=None):
             d = rng.choice([0, 0.3 * cell, 0.3 * cell, cell, max(P["dX"], P["dY"]), 2 * cell, 1, 2.2, 5, gsize,
                             rng.uniform(0, 3 * max(P["dX"], P["dY"])), rng.uniform(0, gsize)])
             queries.append({"q": "nbh", "p": p, "d": d})
+    # neighbourhood queries aimed at one leg: a point a fraction of a cell beside it, radius just above the offset
+    for _ in range(2 if heavy else 5):
+        t = rng.choice(tracks)
+        k = rng.randrange(len(t) - 1)
+        s_ = rng.random()
+        mx, my = t[k][0] + s_ * (t[k + 1][0] - t[k][0]), t[k][1] + s_ * (t[k + 1][1] - t[k][1])
+        off = rng.choice([0.1, 0.3, 0.7, 1.2]) * cell
+        ang = rng.choice([0, 0.5, 1, 1.5]) * math.pi if rng.random() < 0.6 else rng.uniform(0, 2 * math.pi)
+        p = [min(max(mx + off * math.cos(ang), P["x0"]), P["x1"]), min(max(my + off * math.sin(ang), P["y0"]), P["y1"])]
+        queries.append({"q": "nbh", "p": p, "d": off * rng.choice([1.05, 1.5, 2])})
     return {"kind": kind, "profile": profile, "tracks": tracks, "res": res, "margin": margin, "queries": queries}
 
 
@@ -362,6 +429,9 @@ def cases(chunk):
             force["margin"] = MARGINS[(k + n // 4) % 4]
         if n % 5 == 0:
             force["kind"] = ["tc", "net"][(k + n // 5) % 2]
+        if n % 12 == 5:
+            yield _gen_rand_case(rng, {"border": True})
+            continue
         if n % 7 == 0:
             force["res"] = RES_NONSQUARE[(k + n // 7) % len(RES_NONSQUARE)]
             force["profile"] = ["lattice", "gridsnap"][(n // 7) % 2]
@@ -527,6 +597,10 @@ def run_case(case, ctx):
                 cls.add("vertex_on_upper_outer_border")
             if k and pts[k - 1] == p:
                 cls.add("zero_length_leg")
+            if k and ((p[0] == pts[k - 1][0] and ox) or (p[1] == pts[k - 1][1] and oy)):
+                cls.add("leg_on_outer_border")
+                if (p[0] == pts[k - 1][0] and ux) or (p[1] == pts[k - 1][1] and uy):
+                    cls.add("leg_on_upper_outer_border")
 
     demanded = 0
 
